@@ -50,6 +50,10 @@ CHECKS = {
                 technique="runtime monitoring of request histories: the harness plays the whole web through reactive scripted transports; the walk observed (address dialled + request target per hop) is compared with a simulation of the same table using the harness's own RFC 3986 resolver",
                 text="Generated redirect webs (chains, trees, cycles; all 3xx codes; every Location form incl. missing, unusable and non-http) are walked by send() under max_redirections {0,1,2,5,7} and follow on/off; the observed request sequence, the error raised at the bound, the set of followed statuses and Response::url/status must equal the reference walk, including the exhaustive chain-length x max boundary table.",
                 note="Judged on the subset of reference syntax where RFC 3986 and the WHATWG URL standard agree; the rest is executed and only its prefix judged."),
+    "C11": dict(cat="exploration", design="DESIGN.md §3 C11",
+                technique="runtime monitoring of the public decision function and of the dial: exhaustive small-scope host x no-proxy-list space and the 8-variable environment space (each shard process owns its environment), reference decision returning sets of acceptable outcomes",
+                text="All hosts of 1..3 labels over a 5-label alphabet (+ IP literals, mixed case) x all no-proxy lists of <= 2 entries over 10 entry shapes x scheme x proxy configuration, through the builder and through NO_PROXY; all 7^8 assignments of the eight proxy variables in thorough (20 000 sampled in quick); end-to-end sends confirm that the address dialled agrees with for_url.",
+                note="No hook needed. Gray cases (listed in the evidence assumptions) are executed but not judged."),
 }
 
 NOT_APPLICABLE = {}
